@@ -431,12 +431,17 @@ fn serialise_router_advertisement(a: &RtrAdvertisement) -> Vec<u8> {
                     /* RFC8106 Section 5.1: an RDNSS option carries at least one address. */
                     continue;
                 }
-                v.serialise(RDNSS.0);
-                v.serialise(u8::try_from(1 + servers.len() * 2).unwrap());
-                v.serialise(0_u16); // Reserved / Padding.
-                v.serialise(u32::try_from(lifetime.as_secs()).unwrap_or(u32::MAX));
-                for server in servers {
-                    v.serialise(server);
+                /* The length octet counts units of 8 octets: one option holds at most 127
+                 * addresses, more are sent in further options.
+                 */
+                for chunk in servers.chunks(127) {
+                    v.serialise(RDNSS.0);
+                    v.serialise(u8::try_from(1 + chunk.len() * 2).unwrap());
+                    v.serialise(0_u16); // Reserved / Padding.
+                    v.serialise(u32::try_from(lifetime.as_secs()).unwrap_or(u32::MAX));
+                    for server in chunk {
+                        v.serialise(server);
+                    }
                 }
             }
             NDOptionValue::DnsSearchList((lifetime, suffixes)) => {
